@@ -32,6 +32,9 @@ pub struct PoolOp {
 pub struct Pool {
     pub seed: u64,
     pub ops: Vec<PoolOp>,
+    /// type letter of each family id (index = family id)
+    #[serde(default)]
+    pub family_types: Vec<u8>,
 }
 
 fn push(v: &mut Vec<PoolOp>, op: Op, group: u8) {
@@ -357,6 +360,36 @@ pub fn build(seed: u64, size: usize) -> Pool {
         push(&mut ops, Op::Uncompact { cells: vec![0], res: 1 }, 255);
         push(&mut ops, Op::Uncompact { cells: r0, res: 2 }, 255);
     }
+    if let Ok(r0) = a5::get_res0_cells() {
+        // sets mixing base cells, quintants and finer cells of several faces
+        for _ in 0..n(30) {
+            let mut set: Vec<u64> = Vec::new();
+            for b in &r0 {
+                match rng.below(5) {
+                    0 => set.push(*b),
+                    1 => {
+                        if let Ok(q) = a5::cell_to_children(*b, Some(1)) {
+                            let keep = rng.range(3, 5) as usize;
+                            set.extend(q.iter().take(keep));
+                        }
+                    }
+                    2 => {
+                        if let Ok(q) = a5::cell_to_children(*b, Some(1)) {
+                            if let Ok(k) = a5::cell_to_children(*rng.pick(&q), Some(rng.range(2, 3) as i32)) {
+                                let keep = if rng.pct(70) { k.len() } else { k.len() - 1 };
+                                set.extend(k.iter().take(keep));
+                            }
+                        }
+                    }
+                    _ => {}
+                }
+            }
+            if set.len() >= 2 {
+                rng.shuffle(&mut set);
+                push(&mut ops, Op::Compact { cells: set }, 255);
+            }
+        }
+    }
     push(&mut ops, Op::Compact { cells: vec![] }, 255);
     push_poison(&mut ops, Op::Compact { cells: vec![rng.next_u64(), rng.next_u64(), 0, 0] }, 255, "cell_bit_pattern");
     push_poison(&mut ops, Op::Uncompact { cells: vec![rng.next_u64() | 1 << 40], res: 3 }, 255, "cell_bit_pattern");
@@ -460,9 +493,14 @@ pub fn build(seed: u64, size: usize) -> Pool {
     // ---- families of near-identical calls (a too-coarse cache key shows only when such calls
     //      follow each other)
     let mut fam: u32 = 0;
+    // family id -> family type letter (index 0 unused)
+    let mut fam_types: Vec<u8> = vec![0];
+    #[allow(unused_assignments)]
+    let mut cur_type: u8 = b'a';
     let pushf = |ops: &mut Vec<PoolOp>, op: Op, group: u8, family: u32| {
         ops.push(PoolOp { op, group, poison: None, cheap: false, family });
     };
+    cur_type = b'a';
     // (a) points a hair's breadth apart, on both sides of a cell edge, same resolution
     for _ in 0..n(70) {
         let &(c, g) = rng.pick(&base_cells);
@@ -479,6 +517,7 @@ pub fn build(seed: u64, size: usize) -> Pool {
             continue;
         }
         fam += 1;
+        fam_types.push(cur_type);
         let (dx, dy) = (ctr.longitude() - v.longitude(), ctr.latitude() - v.latitude());
         for eps in [1e-7, -1e-7, 1e-5, -1e-5, 1e-4, -1e-4, 1e-3, -1e-3, 1e-2, -1e-2] {
             if rng.pct(35) {
@@ -495,6 +534,7 @@ pub fn build(seed: u64, size: usize) -> Pool {
         pushf(&mut ops, Op::LonLatToCell { lon: F::of(v.longitude()), lat: F::of(v.latitude()), res: r }, g, fam);
         pushf(&mut ops, Op::LonLatToCell { lon: F::of(lon1), lat: F::of(v.latitude()), res: r }, g, fam);
     }
+    cur_type = b'b';
     // (b) one cell, every boundary option; the same curve position on other faces / segments
     for _ in 0..n(40) {
         let &(c, g) = rng.pick(&base_cells);
@@ -503,6 +543,7 @@ pub fn build(seed: u64, size: usize) -> Pool {
             _ => continue,
         };
         fam += 1;
+        fam_types.push(cur_type);
         pushf(&mut ops, Op::CellToBoundaryDefault { cell: c }, g, fam);
         for (closed, seg) in [(true, Some(1)), (false, Some(1)), (true, Some(2)), (false, Some(3)), (true, None), (false, None)] {
             if rng.pct(60) {
@@ -511,6 +552,7 @@ pub fn build(seed: u64, size: usize) -> Pool {
         }
         pushf(&mut ops, Op::CellToLonLat { cell: c }, g, fam);
         fam += 1;
+        fam_types.push(cur_type);
         for _ in 0..3 {
             let o2 = rng.below(12) as u8;
             let seg2 = if d.resolution == 0 { 0 } else { rng.below(5) as usize };
@@ -531,6 +573,7 @@ pub fn build(seed: u64, size: usize) -> Pool {
             pushf(&mut ops, Op::CellToParent { cell: c, res: Some((d.resolution - dr).max(-1)) }, g, fam);
         }
     }
+    cur_type = b'f';
     // (f) "label and outline" on two cells: centre and boundary of X and of a second cell Y (the
     //     minimal two-keys-two-functions contention pattern)
     for _ in 0..n(40) {
@@ -549,6 +592,7 @@ pub fn build(seed: u64, size: usize) -> Pool {
             continue;
         }
         fam += 1;
+        fam_types.push(cur_type);
         for c in [x, y] {
             pushf(&mut ops, Op::CellToLonLat { cell: c }, g, fam);
             pushf(&mut ops, Op::CellToBoundary { cell: c, closed: true, segments: Some(1) }, g, fam);
@@ -557,6 +601,7 @@ pub fn build(seed: u64, size: usize) -> Pool {
             pushf(&mut ops, Op::CellToBoundaryDefault { cell: x }, g, fam);
         }
     }
+    cur_type = b'g';
     // (g) cell ids that agree in everything but ONE curve digit (top, middle or bottom of the
     //     position field): what a hash or a truncated key of the position would confuse
     for _ in 0..n(50) {
@@ -566,6 +611,7 @@ pub fn build(seed: u64, size: usize) -> Pool {
             _ => continue,
         };
         fam += 1;
+        fam_types.push(cur_type);
         let levels = (d.resolution - 1) as u32; // quaternary digits of s
         pushf(&mut ops, Op::CellToLonLat { cell: c }, g, fam);
         pushf(&mut ops, Op::CellToBoundary { cell: c, closed: true, segments: Some(1) }, g, fam);
@@ -594,11 +640,13 @@ pub fn build(seed: u64, size: usize) -> Pool {
             }
         }
     }
+    cur_type = b'h';
     // (h) neighbours across the discontinuities of the coordinate system: the antimeridian and
     //     the poles (cells and points a few metres to kilometres apart whose longitudes differ by
     //     ~360 or ~180 degrees)
     for _ in 0..n(50) {
         fam += 1;
+        fam_types.push(cur_type);
         let r = rng.range(6, 24) as i32;
         let eps = 10f64.powf(rng.uniform(-6.0, -1.0));
         let pts: Vec<(f64, f64)> = if rng.pct(70) {
@@ -621,23 +669,55 @@ pub fn build(seed: u64, size: usize) -> Pool {
             }
         }
     }
+    cur_type = b'i';
     // (i) calls with BIG results (4^9 cells, 2 MB) next to the same call one level shallower:
     //     caches with a memory cap, buffers that are reused instead of reallocated
-    for _ in 0..2 {
+    for _ in 0..3 {
         let &(c, g) = rng.pick(&base_cells);
         let r = a5::get_resolution(c);
         if !(2..=20).contains(&r) {
             continue;
         }
         fam += 1;
+        fam_types.push(cur_type);
         pushf(&mut ops, Op::CellToChildren { cell: c, res: Some(r + 9) }, g, fam);
         pushf(&mut ops, Op::CellToChildren { cell: c, res: Some(r + 1) }, g, fam);
         pushf(&mut ops, Op::Uncompact { cells: vec![c], res: r + 9 }, g, fam);
         pushf(&mut ops, Op::Uncompact { cells: vec![c], res: r + 2 }, g, fam);
+        // a BIG input as well (4^8 cells to compact), next to small mixed-resolution inputs
+        if let Ok(many) = a5::cell_to_children(c, Some(r + 8)) {
+            pushf(&mut ops, Op::Compact { cells: many }, g, fam);
+        }
+        if let Ok(r0) = a5::get_res0_cells() {
+            for _ in 0..4 {
+                // base cells of some faces + a complete or incomplete group of finer cells elsewhere
+                let mut set: Vec<u64> = Vec::new();
+                for b in &r0 {
+                    if rng.pct(40) {
+                        set.push(*b);
+                    }
+                }
+                let face = *rng.pick(&r0);
+                if let Ok(q) = a5::cell_to_children(face, Some(1)) {
+                    let qc = *rng.pick(&q);
+                    if let Ok(kids) = a5::cell_to_children(qc, Some(rng.range(2, 3) as i32)) {
+                        let take = if rng.pct(60) { kids.len() } else { kids.len() - 1 };
+                        set.retain(|x| *x != face);
+                        set.extend(kids.iter().take(take));
+                    }
+                }
+                if set.len() >= 2 {
+                    rng.shuffle(&mut set);
+                    pushf(&mut ops, Op::Compact { cells: set }, g, fam);
+                }
+            }
+        }
     }
+    cur_type = b'c';
     // (c) projection: one face point under every face id; one point and its bitwise neighbours
     for _ in 0..n(30) {
         fam += 1;
+        fam_types.push(cur_type);
         let tri = rng.below(10) as usize;
         let refl = rng.pct(40);
         let (x, y) = slot_face_point(&mut rng, tri, refl);
@@ -666,9 +746,11 @@ pub fn build(seed: u64, size: usize) -> Pool {
             pushf(&mut ops, Op::Forward { t: Target::Tl, theta: F::of(t + 2.0 * PI), phi: F::of(p), origin: o }, o, fam);
         }
     }
+    cur_type = b'd';
     // (d) curve functions: one position / point under every orientation and neighbouring depths
     for _ in 0..n(20) {
         fam += 1;
+        fam_types.push(cur_type);
         let res = rng.range(2, 20) as u32;
         let side = (1u64 << res) as f64;
         let i = rng.uniform(0.0, side);
@@ -682,6 +764,7 @@ pub fn build(seed: u64, size: usize) -> Pool {
         pushf(&mut ops, Op::SToAnchor { s: s0 ^ 1, res, orient: 0 }, 255, fam);
         pushf(&mut ops, Op::IjToS { x: F::of(i), y: F::of(j), res: res + 1, orient: 0 }, 255, fam);
     }
+    cur_type = b'e';
     // (e) compaction: one set, a permutation of it, and the set with one member changed
     for _ in 0..n(20) {
         let &(c, g) = rng.pick(&base_cells);
@@ -694,6 +777,7 @@ pub fn build(seed: u64, size: usize) -> Pool {
                 continue;
             }
             fam += 1;
+        fam_types.push(cur_type);
             pushf(&mut ops, Op::Compact { cells: set.clone() }, g, fam);
             rng.shuffle(&mut set);
             pushf(&mut ops, Op::Compact { cells: set.clone() }, g, fam);
@@ -735,10 +819,12 @@ pub fn build(seed: u64, size: usize) -> Pool {
         let (t, p) = (lon.to_radians(), (90.0 - lat).to_radians());
         (F::of(p.sin() * t.cos()), F::of(p.sin() * t.sin()), F::of(p.cos()))
     };
+    cur_type = b'k';
     // (k) ladders: one point at every resolution; one cell and its whole chain of ancestors;
     //     mirror images and 360-degree aliases of one point
     for _ in 0..n(16) {
         fam += 1;
+        fam_types.push(cur_type);
         let (lon, lat) = random_lonlat(&mut rng);
         let step = rng.range(1, 3) as usize;
         for r in (-1..=29).step_by(step) {
@@ -750,6 +836,7 @@ pub fn build(seed: u64, size: usize) -> Pool {
         }
         if let Ok(c) = a5::lonlat_to_cell(LonLat::new(lon, lat), 29) {
             fam += 1;
+        fam_types.push(cur_type);
             let g = (c >> 58) as u8 / 5;
             for r in (-1..=29).rev().step_by(step) {
                 pushf(&mut ops, Op::CellToParent { cell: c, res: Some(r) }, g, fam);
@@ -765,10 +852,12 @@ pub fn build(seed: u64, size: usize) -> Pool {
             }
         }
     }
+    cur_type = b'l';
     // (l) one number in several spellings; metadata of every resolution; one projection call on
     //     every kind of receiver
     {
         fam += 1;
+        fam_types.push(cur_type);
         for v in [255u64, 0xdeadbeef, 1 << 63, rng.next_u64()] {
             let h = format!("{:x}", v);
             for s in [h.clone(), h.to_uppercase(), format!("00{}", h), format!("{:0>16}", h), format!("0x{}", h), format!("+{}", h), format!(" {}", h)] {
@@ -778,6 +867,7 @@ pub fn build(seed: u64, size: usize) -> Pool {
             pushf(&mut ops, Op::U64ToHex { v }, 255, fam);
         }
         fam += 1;
+        fam_types.push(cur_type);
         for r in -1..=30 {
             pushf(&mut ops, Op::CellArea { res: r }, 255, fam);
             pushf(&mut ops, Op::GetNumCells { res: r }, 255, fam);
@@ -787,6 +877,7 @@ pub fn build(seed: u64, size: usize) -> Pool {
         }
         for _ in 0..n(12) {
             fam += 1;
+        fam_types.push(cur_type);
             let origin = rng.below(12) as u8;
             let tri = rng.below(10) as usize;
             let refl = rng.pct(40);
@@ -801,10 +892,12 @@ pub fn build(seed: u64, size: usize) -> Pool {
             }
         }
     }
+    cur_type = b'm';
     // (m) floats that compare equal but are different bit patterns, and the reverse: +0.0 / -0.0
     //     coordinates (a float-keyed cache using `==` confuses them), NaNs with different payloads
     {
         fam += 1;
+        fam_types.push(cur_type);
         let z = [0.0f64, -0.0];
         for lon in z {
             for lat in z {
@@ -822,6 +915,7 @@ pub fn build(seed: u64, size: usize) -> Pool {
             pushf(&mut ops, Op::LonLatToCell { lon: F::of(90.0), lat: F::of(lon), res: 9 }, 255, fam);
         }
         fam += 1;
+        fam_types.push(cur_type);
         for origin in [0u8, 5, 11] {
             for (x, y) in [(0.0f64, 0.0f64), (-0.0, 0.0), (0.0, -0.0), (-0.0, -0.0), (0.1, 0.0), (0.1, -0.0), (0.0, 0.1), (-0.0, 0.1)] {
                 pushf(&mut ops, Op::Inverse { t: Target::Tl, x: F::of(x), y: F::of(y), origin }, origin, fam);
@@ -831,6 +925,7 @@ pub fn build(seed: u64, size: usize) -> Pool {
             }
         }
         fam += 1;
+        fam_types.push(cur_type);
         let nans = [f64::NAN, -f64::NAN, f64::from_bits(0x7ff8_0000_0000_0001), f64::from_bits(0x7ff0_0000_0000_0001), f64::INFINITY, f64::NEG_INFINITY];
         for v in nans {
             ops.push(PoolOp { op: Op::LonLatToCell { lon: F::of(v), lat: F::of(10.0), res: 5 }, group: 255, poison: Some("coordinate_out_of_range".into()), cheap: false, family: fam });
@@ -839,10 +934,12 @@ pub fn build(seed: u64, size: usize) -> Pool {
         }
         pushf(&mut ops, Op::LonLatToCell { lon: F::of(10.0), lat: F::of(10.0), res: 5 }, 255, fam);
     }
+    cur_type = b'j';
     // (j) list-valued arguments: the same elements in another order, rotated, reversed, with a
     //     repeated closing element (an order-insensitive key or hash would confuse them)
     for _ in 0..n(16) {
         fam += 1;
+        fam_types.push(cur_type);
         let v3: Vec<(F, F, F)> = (0..rng.range(3, 5)).map(|_| rc(&mut rng)).collect();
         let mut rev = v3.clone();
         rev.reverse();
@@ -1024,5 +1121,5 @@ pub fn build(seed: u64, size: usize) -> Pool {
     // de-duplicate by key, keep first occurrence, stable order
     let mut seen = std::collections::BTreeSet::new();
     ops.retain(|p| seen.insert(p.op.key()));
-    Pool { seed, ops }
+    Pool { seed, ops, family_types: fam_types }
 }
